@@ -777,7 +777,7 @@ def path_correspondence(run):
         gated = c["sargs"] is not None and c["kind"] in PATH_FORM and c["sargs"][{"attr": "attrs", "method": "methods", "index": "indexer"}[PATH_FORM[c["kind"]]]]
         if obs[0] == "invoked":
             kind, what = "violation", ("the host object itself is called through %s although it is not handed to a lambda "
-                                       "parameter by call() (outside known finding F20)" % c["kind"])
+                                       "parameter by call() (outside known finding F22)" % c["kind"])
         elif obs[0] == "reach" and not gated:
             kind, what = "violation", ("a member of an object whose settings do not open this form (or that is not yaqlized) is "
                                        "reached through %s" % c["kind"])
@@ -960,12 +960,12 @@ def oracle(run, deep):
 
 
 def classify(failure, known_entries):
-    """F20 (open): the canary is INVOKED from Lambda._call as the value of a lambda parameter, in an expression in
+    """F22 (open): the canary is INVOKED from Lambda._call as the value of a lambda parameter, in an expression in
     which it only occurs inside the arguments of call(...); nothing else was observed on it."""
     if c07_sweep.in_f20_class(failure.data):
         for k in known_entries:
-            if k.get("id") == "F20":
-                return k.get("line", "F20").replace("open: property=C07 ", "")
+            if k.get("id") == "F22":
+                return k.get("line", "F22").replace("open: property=C07 ", "")
     return None
 
 
